@@ -18,7 +18,7 @@ CFG = {'shell': {b'shell:hold0': [b'h0'], b'shell:hold1': [b'h1'], b'shell:hold2
        'hold': [b'shell:hold%d' % i for i in range(6)]}
 
 
-def judge(s, results, n, viol):
+def judge(s, results, n, viol, same=False):
     env = s.env
     opens = [p for w, p in env.events if w == 'H' and p.cmd == b'OPEN']
     ids = [p.a0 for p in opens]
@@ -32,7 +32,7 @@ def judge(s, results, n, viol):
     mon, _ = monitor.check(env.events, completed=False)
     viol += [{'msg': 'stream monitor %s: %s' % m} for m in mon]
     for i, r in enumerate(results):
-        if r != ('ok', b'h%d' % i):
+        if r != ('ok', b'h%d' % (0 if same else i)):
             viol.append({'msg': 'open %d returned %r, expected its own first payload' % (i, r)})
     return ids
 
@@ -69,7 +69,7 @@ def run_threads(params, ch):
             kw = {'decode': False}
             if params.get('timeouts'):
                 kw.update(transport_timeout_s=[0.05, 0][i % 2], read_timeout_s=5.0)
-            sc.spawn(lambda i=i, kw=kw: s.op(('gen-start', 'hold%d' % i, dict(kw))), name='open%d' % i)
+            sc.spawn(lambda i=i, kw=kw: s.op(('gen-start', 'hold%d' % (0 if params.get('same') else i), dict(kw))), name='open%d' % i)
         results = sc.run()
         s.env.sched = None
         if sc.verdict and sc.verdict.startswith('error'):
@@ -77,10 +77,10 @@ def run_threads(params, ch):
         viol = []
         if sc.verdict:
             viol.append({'msg': 'scheduler verdict: %s' % sc.verdict})
-        ids = judge(s, results, n, viol)
+        ids = judge(s, results, n, viol, bool(params.get('same')))
         dev = [c for c in ch.choices if c]
         return {'outcome': (tuple(sorted(ids)), tuple(r[0] for r in results)), 'viol': viol, 'states': sc.states, 'trans': sc.steps,
-                'nontrivial': (params['start'], n, params.get('opcodes', False), tuple(ch.choices)) if (dev or params['start'] > 1) else None,
+                'nontrivial': (params['start'], n, params.get('opcodes', False), params.get('same'), tuple(ch.choices)) if (dev or params['start'] > 1) else None,
                 'sample': {'start': params['start'], 'threads': n, 'open_ids': ids, 'scheduling_points': sc.steps, 'preemptions': sc.preemptions}}
     finally:
         s.env.sched = None
@@ -271,7 +271,7 @@ def parts(tier):
 
 def _parts(tier):
     pb = 2 if tier == 'quick' else 3
-    out = [Part('threads-2-lines', [{'start': st, 'n': 2} for st in STARTS], run_threads, {'sched': pb, 'dev-order': 0}, split=2,
+    out = [Part('threads-2-lines', [{'start': st, 'n': 2} for st in STARTS] + [{'start': st, 'n': 2, 'same': True} for st in (0, 2**32 - 2)], run_threads, {'sched': pb, 'dev-order': 0}, split=2,
                 what='2 concurrent opens, line-level scheduling points in id allocation', bound='preemptions <= %d' % pb)]
     if tier == 'thorough':
         out.append(Part('threads-3-lines', [{'start': st, 'n': 3} for st in STARTS], run_threads, {'sched': 2, 'dev-order': 0}, split=2,
